@@ -862,6 +862,7 @@ func GenTypes(t *rapid.T, o *Opts) *Spec {
 			pkg    *Pkg
 			member string
 			val    string
+			enum   string
 		}
 		var cands []cand
 		for _, p := range g.spec.Pkgs[1:] {
@@ -881,7 +882,7 @@ func GenTypes(t *rapid.T, o *Opts) *Spec {
 				for _, b := range f.Consts {
 					for _, cs := range b.Specs {
 						if len(cs.Names) == 1 && cs.OfType[0] != "" && cs.Names[0] != "_" && cs.Names[0][0] >= 'A' && cs.Names[0][0] <= 'Z' {
-							cands = append(cands, cand{p, cs.Names[0], cs.Vals[0]})
+							cands = append(cands, cand{p, cs.Names[0], cs.Vals[0], cs.OfType[0]})
 						}
 					}
 				}
@@ -889,11 +890,44 @@ func GenTypes(t *rapid.T, o *Opts) *Spec {
 		}
 		if len(cands) > 0 {
 			c := cands[rapid.IntRange(0, len(cands)-1).Draw(t, "foreignEnumConstOf")]
-			name := g.constName(root, "Default"+c.member, 0, true, "foreignEnumConstName")
-			root.Files[0].Consts = append(root.Files[0].Consts, &Block{Grouped: false, Specs: []*ConstSpec{{
-				Names: []string{name}, Exprs: []string{g.spec.qualifier(c.pkg.Path) + "." + c.member}, Vals: []string{c.val}, OfType: []string{""}}}})
-			root.Files[0].Raw += fmt.Sprintf("//import %q\n", c.pkg.Path)
-			o.class("enum:constant_of_imported_enum_declared_in_root")
+			// variant: the constant is declared by a sibling package that imports the enum's package, and the analysed
+			// package merely uses it through a variable (three packages, two import paths to the enum, no constant of the
+			// enum in the analysed package itself)
+			sibling := false
+			if rapid.IntRange(0, 2).Draw(t, "siblingEnumConst") == 0 && c.enum != "" && c.enum[0] >= 'A' && c.enum[0] <= 'Z' {
+				for _, q := range g.spec.Pkgs[1:] {
+					if q == c.pkg || !g.imports(q, c.pkg) || len(q.Files) == 0 {
+						continue
+					}
+					sameName := 0
+					for _, q2 := range g.spec.Pkgs {
+						if q2.Name == q.Name {
+							sameName++
+						}
+					}
+					if sameName > 1 {
+						continue
+					}
+					n2 := g.constName(q, "Fallback"+c.member, 0, true, "siblingEnumConstName")
+					q.Files[0].Consts = append(q.Files[0].Consts, &Block{Grouped: false, Specs: []*ConstSpec{{
+						Names: []string{n2}, Exprs: []string{g.spec.qualifier(c.pkg.Path) + "." + c.member}, Vals: []string{c.val}, OfType: []string{""}}}})
+					q.Files[0].Raw += fmt.Sprintf("//import %q\n", c.pkg.Path)
+					root.Files[0].Raw += fmt.Sprintf("//import %q\n//import %q\nvar _, _ = %s.%s, %s.%s\n", q.Path, c.pkg.Path, g.spec.qualifier(q.Path), n2, g.spec.qualifier(c.pkg.Path), c.member)
+					// the enum is part of the analysed graph: every target prints its members
+					g.newDecl(root, root.Files[0], &Decl{Kind: KStruct, Name: g.freshName(root, "siblingEnumHolder", true), Fields: []*Field{
+						{Name: "Zkind", Type: Ref(c.pkg.Path, c.enum)}, {Name: "Zn", Type: Basic("int")}}}, &tinfo{cat: "struct"})
+					o.class("enum:constant_of_sibling_enum_declared_in_sibling")
+					sibling = true
+					break
+				}
+			}
+			if !sibling {
+				name := g.constName(root, "Default"+c.member, 0, true, "foreignEnumConstName")
+				root.Files[0].Consts = append(root.Files[0].Consts, &Block{Grouped: false, Specs: []*ConstSpec{{
+					Names: []string{name}, Exprs: []string{g.spec.qualifier(c.pkg.Path) + "." + c.member}, Vals: []string{c.val}, OfType: []string{""}}}})
+				root.Files[0].Raw += fmt.Sprintf("//import %q\n", c.pkg.Path)
+				o.class("enum:constant_of_imported_enum_declared_in_root")
+			}
 		}
 	}
 	if o.EnumStress && rapid.IntRange(0, 3).Draw(t, "untypedConsts") == 0 {
